@@ -26,14 +26,16 @@ CHECKS += [
              "end temperatures differ; alphabet values only"},
     {"property_id": "C04", "category": "exploration", "design_ref": "DESIGN.md 4/C04",
      "technique": "exhaustive flag-lattice enumeration (all 2^k patterns) on the real solver + reachability model + differential run",
-     "text": "All 2^k in_service/opened/control_active patterns (k=9-10 quick, 9-14 thorough) on four superset networks "
+     "text": "All 2^k in_service/opened/control_active patterns (k=9-10 quick, 9-14 thorough) on seven superset networks "
              "(two-feeder water mesh with pressure and flow controller, ring with junction-pipe valves and colliding "
-             "labels, gas tree with compressor, heat ladder with two circulation pumps in sequential mode) are run through "
+             "labels, gas tree with compressor, heat ladder with two circulation pumps, thermal-supply net with a p-type "
+             "feeder in sequential and bidirectional mode, chain with feeders on junctions that can be out of service) are run through "
              "the real pipeflow; NaN pattern of every result row is compared with an independent reachability model "
              "(valve nodes, one-way pressure controller) and all results with those of the pruned network; "
              "no supplied junction => PipeflowNotConverged, any other exception type is a violation.",
      "note": "the reachability model is harness code written from the statement and the component documentation; "
-             "feeder on out-of-service junction is excluded as ambiguous and counted"},
+             "a feeder on an out-of-service junction supplies nothing; only the sub-case where another feeder re-activates that "
+             "junction is excluded as ambiguous and counted"},
     {"property_id": "C05", "category": "model_checking", "design_ref": "DESIGN.md 4/C05 and 5",
      "technique": "explicit-state exploration of the real Newton driver under a scripted environment + TLC model with full "
                   "path replay against the implementation + exhaustive fault injection / call-history BFS on pipeflow",
@@ -97,7 +99,7 @@ CHECKS += [
     {"property_id": "C11", "category": "exploration", "design_ref": "DESIGN.md 4/C11",
      "technique": "exhaustive enumeration of heat-consumer mode assignments on ladder loops + duty identities",
      "text": "All assignments of the five heat-consumer specification modes and exchanger rungs to k<=2/3 rungs x heat sign x "
-             "pipe heat loss x pump kind x sequential/bidirectional: duty identity q = mdot*cp_mean*dT per consumer/exchanger, "
+             "pipe heat loss x pump kind x sequential/bidirectional (+ variant with reversed consumer labels and a switched-off consumer): duty identity q = mdot*cp_mean*dT per consumer/exchanger, "
              "reported deltat, set-points (mass flow always, the second quantity when mass flow is prescribed or in "
              "bidirectional mode) and loop closure of the circulation pump's heat within the cp-discretisation envelope.",
      "note": "non-converging assignments are counted (coverage floor 30%)"},
@@ -116,12 +118,14 @@ CHECKS += [
      "text": "All histories of steps (optional user-option / edit / restore operation + one pipeflow in one of 8 modes/option sets) "
              "of depth 2 (quick) / 3 (thorough) on three nets: before/after deep snapshots of every input (tables, fluid "
              "properties, std types, component list, user options, default options), bit-identical repeat, equality with the "
-             "same call on a freshly built net, heat-from-stored-solution = sequential.",
+             "same call on a freshly built net, heat-from-stored-solution = sequential (also from a solution kept across a "
+             "failing run).",
      "note": "the documented hyd_flag marker in user_pf_options is excluded"},
     {"property_id": "C13", "category": "model_checking", "design_ref": "DESIGN.md 4/C13",
      "technique": "exhaustive enumeration of profile vectors x step lists x divergence policy, each logged step replayed as a stand-alone calculation",
      "text": "All profile vectors of length 3/4 over {low, mid, high, infeasible demand, feeder off} x 6+ step lists (forward, "
-             "reversed, single, subsets, rotated) x continue_on_divergence x 1-2 controllers on a gas tree and a water mesh: "
+             "reversed, single, subsets, rotated) x continue_on_divergence x 1-2 controllers on a gas tree and a water mesh, the gas tree also as member of a "
+             "multinet (multi-energy time series, both member orders), topology-changing profiles x only_update_hydraulic_matrix: "
              "every logged step equals a stand-alone pipeflow on a fresh net with that step's values; failed steps are flagged, "
              "carry no results, raise PipeflowNotConverged without continue_on_divergence and do not disturb later steps.",
      "note": "pandapower's ConstControl/OutputWriter/run_time_step trusted"},
@@ -159,12 +163,12 @@ CHECKS += [
      "technique": "exhaustive enumeration over the shipped library data (all fluids, tabulated points, query shapes, pump types, pipe types)",
      "text": "Every library fluid x property at every tabulated point, midpoint and outside points x 6 query shapes against the data "
              "files; compressibility slope = stored derivative; integral antisymmetry / additivity / exactness for every property "
-             "class; mixture rules on the simplex grid; pump lift rules for scalar and array queries; all 285 pipe std types.",
+             "class; mixture rules on the simplex grid; pump lift rules for scalar and array queries; all 285 pipe std types (parameters, overrides, library unchanged by overrides).",
      "note": "data files are the ground truth"},
     {"property_id": "C20", "category": "model_checking", "design_ref": "DESIGN.md 4/C20",
      "technique": "enumeration of multinet controller configurations and level orders with stand-alone differential per member net",
      "text": "Every coupling controller kind x efficiency x scaling x scalar/vector/gapped index, chains of two controllers in all "
-             "orders on one and two levels with feasible / uncomputable gas member, round trips, 3-step multinet time series: "
+             "orders on one and two levels with feasible / uncomputable gas member, round trips, 3-step multinet time series with the profile on the power or on the gas side (both member orders): "
              "written values = scaled input x heating-value factor x efficiency (heating values read from the data files), "
              "every member holds the results of a stand-alone calculation, multinet converged flag = conjunction of member flags.",
      "note": "pandapower power flow and controller loop trusted"},
